@@ -190,6 +190,7 @@ class Emitter:
                 elif key == "ret": opts["ret"] = rest
                 elif key == "name": opts["name"] = rest
                 elif key == "sig": opts["sig"] = rest
+                elif key == "expect-sig": opts["expect_sig"] = rest
                 elif key == "cut": opts["cut"] = int(rest)
                 elif key == "attr": opts["attr"].append(rest)
                 elif key == "mode": opts["mode"] = rest
@@ -355,6 +356,16 @@ class Emitter:
                 edits.append((toks[kw + 1].start, toks[kw + 1].end, opts["name"], "name"))
         else:
             edits.append((toks[kw].start, toks[bo - 1].end, opts["sig"], "sig"))
+            if opts.get("expect_sig") is not None:
+                # N8: the emitted signature is a monomorphic INSTANCE of the source signature (generic parameter
+                # replaced by the type the workspace callers use); the source signature must still be the one
+                # the instance was derived from, otherwise the anchor is lost (exit 2)
+                have = [t.text for t in toks[kw:bo]]
+                want = [t.text for t in tokenize(opts["expect_sig"])]
+                if have != want:
+                    raise EmitError("lost anchor: signature of %s (found %s)" % (rec.qname, " ".join(have)[:200]))
+                rec.rewrites["N8"] = rec.rewrites.get("N8", 0) + 1
+                rec.sig_instance = opts["sig"]
 
         # ---- spec before body
         if opts["spec"] is not None:
@@ -595,6 +606,8 @@ def check_faithful(emitter, out_text):
             if a_tail != b_tail:
                 problems.append("%s: emitted tail differs from source after the cut" % rec.qname)
             continue
+        if getattr(rec, "sig_instance", None):
+            a = a[a.index("{"):]; b = b[b.index("{"):]
         if a != b:
             # locate first difference
             k = 0
